@@ -97,6 +97,11 @@ func gen(t *rapid.T) Case {
 		s.Handler.Final = finalGen(t)
 		m := i + rapid.IntRange(1, 6).Draw(t, "moresends")
 		big := rapid.SampledFrom([]int{10, 3000, 200000}).Draw(t, "csize")
+		if rapid.IntRange(0, 5).Draw(t, "flood") == 0 {
+			// far more than any transport buffers: once the handler is gone,
+			// somebody has to tell the sender
+			m, big = i+20, 200000
+		}
 		for k := 0; k < m; k++ {
 			if k == i {
 				// by now the handler has certainly finished (virtual time)
@@ -374,6 +379,29 @@ func check(tt *testing.T, c Case) (pbt.Info, error) {
 		}
 		if failed {
 			info.Label("send-after-handler-finished-failed-with-eof")
+		}
+		// a flood of Sends after the handler has finished cannot all succeed
+		// (unless the transport itself keeps swallowing the bytes)
+		after, flood, startedBefore := false, 0, false
+		for _, op := range s.Client.Ops {
+			if op.Op == "send" && !after {
+				startedBefore = true // the call was under way before the pause
+			}
+			if op.Op == "sleep" {
+				after = true
+			}
+			if after && op.Op == "send" && op.Msg != nil {
+				flood += op.Msg.TLen
+			}
+			if op.Op == "recvall" {
+				break
+			}
+		}
+		if flood >= 3<<20 && !s.LingerRequest && startedBefore {
+			info.Label("flood-after-handler-finished")
+			if !failed {
+				return info, fmt.Errorf("%s: %d bytes were sent after the handler had finished and every Send succeeded: the sender is never told that the call is over", where, flood)
+			}
 		}
 		// once Receive has reported the handler's outcome the stream is over:
 		// every later Send must fail, with an error wrapping io.EOF
